@@ -49,6 +49,7 @@ type StateEvent struct {
 	Kind   string // pre | post
 	Node   string
 	Serial int64
+	Val    int64 // value of the state's counter when the handler was entered
 }
 
 // RunLog is the per-run, mutex-protected execution log found through the context.
@@ -120,9 +121,9 @@ func (l *RunLog) addBranch(id, in string, chosen []string) {
 	l.mu.Unlock()
 }
 
-func (l *RunLog) addState(kind, node string, serial int64) {
+func (l *RunLog) addState(kind, node string, serial, val int64) {
 	l.mu.Lock()
-	l.States = append(l.States, StateEvent{Seq: l.next(), Kind: kind, Node: node, Serial: serial})
+	l.States = append(l.States, StateEvent{Seq: l.next(), Kind: kind, Node: node, Serial: serial, Val: val})
 	l.mu.Unlock()
 }
 
@@ -200,7 +201,8 @@ type RunCtl struct {
 	OnChunk func(node string, i int)
 	// StopAfter: rerun nodes interrupt on their first attempt only when true
 	RerunEnabled bool
-	rerunSeen    sync.Map // path -> struct{}
+	// RerunSeen is shared by all calls of one interrupt/resume history (path -> struct{})
+	RerunSeen *sync.Map
 }
 
 type ctlKey struct{}
@@ -216,5 +218,5 @@ func CtlFrom(ctx context.Context) *RunCtl {
 
 // NewCtl creates a control block with a fresh log.
 func NewCtl(runID string) *RunCtl {
-	return &RunCtl{RunID: runID, Log: NewRunLog()}
+	return &RunCtl{RunID: runID, Log: NewRunLog(), RerunSeen: &sync.Map{}}
 }
